@@ -29,8 +29,9 @@ RULE = ("Case = generated recording (probe metadata with 1..384 channels, or a m
 ASSUMPTIONS = ["a failure is an OSError raised by the k-th chunk (de)compression call, by the verification step or by the publishing "
                "rename, or a BaseException (process death) raised in the calling thread between batches; a power cut tearing an "
                "unflushed buffer is not modelled",
-               "after a failed in-place decompression the harness deletes the partial .bin before continuing (the property "
-               "only forbids losing the source there)"]
+               "after a failed in-place decompression the incomplete .bin may stay (the property only forbids losing the source "
+               "there); it is shown to an immediately following decompress operation (retry) and otherwise removed by the harness "
+               "before the next operation, as a user would"]
 BUDGET = {"quick": 800, "thorough": 20000}
 SHRINK = {"quick": False, "thorough": True}
 
@@ -51,7 +52,7 @@ def _case(draw):
     nops = draw(st.integers(3, 8))
     ops = []
     for _ in range(nops):
-        op = draw(st.sampled_from(["compress", "compress", "decompress", "scratch", "open", "open"]))
+        op = draw(st.sampled_from(["compress", "compress", "decompress", "decompress", "scratch", "open", "open"]))
         o = {"op": op}
         if op == "compress":
             o["keep"] = draw(st.booleans())
@@ -411,8 +412,15 @@ def run_case(case, ctx):
                   "start_" + case["start"])
         if case["start"] in ("cbin", "both"):
             rec.compress(w.bin, w.nc, w.fs, case["chunk"], n_threads=1, keep_bin=(case["start"] == "both"))
+        w.partial_bin = False
         for step, o in enumerate(case["ops"]):
             op = o["op"]
+            if w.partial_bin and op != "decompress":
+                # the user cleans up the incomplete output of a failed in-place decompression before doing anything else;
+                # only a retried decompression gets to see it
+                if w.has_bin() and _sha(w.bin) != w.sha:
+                    w.bin.unlink()
+                w.partial_bin = False
             if op == "open":
                 via = o["via"]
                 if via == "meta" and w.flat:
@@ -488,15 +496,19 @@ def run_case(case, ctx):
                 if isinstance(r, ValueError):
                     ctx.label("decompress_refused_existing")
                     ctx.check(w.has_cbin() and _sha(w.cbin) == csha and w.has_bin(), "C02.source_touched", "refused decompression modified files")
+                    if w.partial_bin:
+                        ctx.label("retry_over_partial_refused")
                 elif isinstance(r, faults.InjectedFault) or cnt.fired:
                     ctx.label("fault_decompress_inplace")
                     w.faulted = True
                     ctx.check(w.has_cbin() and w.ch.exists() and _sha(w.cbin) == csha and _sha(w.ch) == chsha, "C02.source_removed_early",
                               "in-place decompression failed part-way but the compressed source is gone or modified")
                     if w.has_bin() and _sha(w.bin) != w.sha:
-                        w.bin.unlink()  # harness clean-up of the partial output (see ASSUMPTIONS)
+                        w.partial_bin = True  # allowed to exist (only the source matters here); see the top of the loop
                 else:
-                    ctx.check(w.has_bin() and _sha(w.bin) == w.sha, "C02.roundtrip_bytes", "decompressed file differs from the original bytes")
+                    w.partial_bin = False
+                    ctx.check(w.has_bin() and _sha(w.bin) == w.sha, "C02.roundtrip_bytes", "decompress_file returned normally but the .bin is not the "
+                              "complete original (e.g. an incomplete leftover of an earlier failed decompression accepted as the result)")
                     ctx.check((w.has_cbin() and w.ch.exists()) == bool(o["keep"]), "C02.keep_original",
                               lambda: f"decompress keep_original={o['keep']} but cbin exists={w.has_cbin()}")
                     ctx.label("roundtrip")
@@ -526,7 +538,8 @@ def run_case(case, ctx):
             if ctx.findings:
                 return  # the model is out of sync with the directory from here on
             w.recoverable(f"step {step} {op}")
-            w.final_names_complete(f"step {step} {op}")
+            if not w.partial_bin:
+                w.final_names_complete(f"step {step} {op}")
             if ctx.findings:
                 return
         if w.nchunks >= 3 and w.ns % case["chunk"] and (w.boundary_compared or w.faulted):
